@@ -10,8 +10,8 @@ template <class T, int S>
 inline void reg_basic_shape(Reg &r)
 {
   for (int set = 0; set < 2; set++) {
-    add<Vec1<T, S>>(r, nm<T>("vec1", S), set);
-    add<PairFun<T, S>>(r, nm<T>("pairfun", S), set);
+    add<Vec1<T, S>>(r, nm<T>("members.unary", S), set);
+    add<PairFun<T, S>>(r, nm<T>("min.max.divRoundUp.less", S), set);
   }
   add<Interp<T, S>>(r, nm<T>("interpolate_uv", S), 0);
 }
@@ -19,7 +19,7 @@ template <class T, class VA, class VB>
 inline void reg_paircmp(Reg &r, const char *combo)
 {
   for (int set = 0; set < 2; set++)
-    add<PairCmp<T, VA, VB>>(r, std::string("paircmp/") + TI<T>::name() + "/" + combo, set);
+    add<PairCmp<T, VA, VB>>(r, std::string("compare.dot.cross/") + TI<T>::name() + "/" + combo, set);
 }
 template <class T>
 inline void reg_basic(Reg &r)
@@ -42,13 +42,13 @@ inline void reg_basic(Reg &r)
 template <class Op, class T, class VA, class VB>
 inline void reg_binvv(Reg &r, const char *combo)
 {
-  If<OpOK<Op, T, T>::value>::template add<BinVV<Op, T, VA, VB>>(r, std::string("binvv") + Op::n() + "/" + TI<T>::name() + "/" + combo, 0);
+  If<OpOK<Op, T, T>::value>::template add<BinVV<Op, T, VA, VB>>(r, std::string("vec.vec:") + Op::n() + "/" + TI<T>::name() + "/" + combo, 0);
 }
 template <class Op, class T, int S>
 inline void reg_bins(Reg &r)
 {
-  If<OpOK<Op, T, T>::value>::template add<BinS<Op, T, S, false>>(r, nm<T>((std::string("binvs") + Op::n()).c_str(), S), 0);
-  If<OpOK<Op, T, T>::value>::template add<BinS<Op, T, S, true>>(r, nm<T>((std::string("binsv") + Op::n()).c_str(), S), 0);
+  If<OpOK<Op, T, T>::value>::template add<BinS<Op, T, S, false>>(r, nm<T>((std::string("vec.scalar:") + Op::n()).c_str(), S), 0);
+  If<OpOK<Op, T, T>::value>::template add<BinS<Op, T, S, true>>(r, nm<T>((std::string("scalar.vec:") + Op::n()).c_str(), S), 0);
 }
 template <class Op, class T>
 inline void reg_bin_op(Reg &r)
@@ -80,9 +80,9 @@ inline void reg_mix_shape(Reg &r)
 {
   const std::string tu = std::string(TI<T>::name()) + "," + TI<U>::name() + "/" + shname(S);
   const bool ok = OpOK<Op, T, U>::value;
-  If<ok>::template add<Mix<Op, T, U, S, 0>>(r, std::string("mixvv") + Op::n() + "/" + tu, 0);
-  If<ok>::template add<Mix<Op, T, U, S, 1>>(r, std::string("mixvs") + Op::n() + "/" + tu, 0);
-  If<ok>::template add<Mix<Op, T, U, S, 2>>(r, std::string("mixsv") + Op::n() + "/" + tu, 0);
+  If<ok>::template add<Mix<Op, T, U, S, 0>>(r, std::string("mixed.vec.vec:") + Op::n() + "/" + tu, 0);
+  If<ok>::template add<Mix<Op, T, U, S, 1>>(r, std::string("mixed.vec.scalar:") + Op::n() + "/" + tu, 0);
+  If<ok>::template add<Mix<Op, T, U, S, 2>>(r, std::string("mixed.scalar.vec:") + Op::n() + "/" + tu, 0);
 }
 template <class Op, class T, class U>
 inline void reg_mix_op(Reg &r)
@@ -123,16 +123,16 @@ inline void reg_cmp_op(Reg &r)
 {
   const std::string tu = std::string(Op::n()) + "=/" + TI<T>::name() + "," + TI<U>::name() + "/";
   const bool ok = OpOK<Op, T, U>::value;
-  If<ok>::template add<CmpVV<Op, T, U, vec_t<T, 2>, vec_t<U, 2>>>(r, "cmpvv" + tu + "vec2,vec2", 0);
-  If<ok>::template add<CmpVV<Op, T, U, vec_t<T, 3>, vec_t<U, 3>>>(r, "cmpvv" + tu + "vec3,vec3", 0);
-  If<ok>::template add<CmpVV<Op, T, U, vec_t<T, 3>, vec_t<U, 3, true>>>(r, "cmpvv" + tu + "vec3,vec3a", 0);
-  If<ok>::template add<CmpVV<Op, T, U, vec_t<T, 3, true>, vec_t<U, 3>>>(r, "cmpvv" + tu + "vec3a,vec3", 0);
-  If<ok>::template add<CmpVV<Op, T, U, vec_t<T, 3, true>, vec_t<U, 3, true>>>(r, "cmpvv" + tu + "vec3a,vec3a", 0);
-  If<ok>::template add<CmpVV<Op, T, U, vec_t<T, 4>, vec_t<U, 4>>>(r, "cmpvv" + tu + "vec4,vec4", 0);
-  If<ok>::template add<CmpVS<Op, T, U, S2>>(r, "cmpvs" + tu + "vec2", 0);
-  If<ok>::template add<CmpVS<Op, T, U, S3>>(r, "cmpvs" + tu + "vec3", 0);
-  If<ok>::template add<CmpVS<Op, T, U, S3A>>(r, "cmpvs" + tu + "vec3a", 0);
-  If<ok>::template add<CmpVS<Op, T, U, S4>>(r, "cmpvs" + tu + "vec4", 0);
+  If<ok>::template add<CmpVV<Op, T, U, vec_t<T, 2>, vec_t<U, 2>>>(r, "compound.vec:" + tu + "vec2,vec2", 0);
+  If<ok>::template add<CmpVV<Op, T, U, vec_t<T, 3>, vec_t<U, 3>>>(r, "compound.vec:" + tu + "vec3,vec3", 0);
+  If<ok>::template add<CmpVV<Op, T, U, vec_t<T, 3>, vec_t<U, 3, true>>>(r, "compound.vec:" + tu + "vec3,vec3a", 0);
+  If<ok>::template add<CmpVV<Op, T, U, vec_t<T, 3, true>, vec_t<U, 3>>>(r, "compound.vec:" + tu + "vec3a,vec3", 0);
+  If<ok>::template add<CmpVV<Op, T, U, vec_t<T, 3, true>, vec_t<U, 3, true>>>(r, "compound.vec:" + tu + "vec3a,vec3a", 0);
+  If<ok>::template add<CmpVV<Op, T, U, vec_t<T, 4>, vec_t<U, 4>>>(r, "compound.vec:" + tu + "vec4,vec4", 0);
+  If<ok>::template add<CmpVS<Op, T, U, S2>>(r, "compound.scalar:" + tu + "vec2", 0);
+  If<ok>::template add<CmpVS<Op, T, U, S3>>(r, "compound.scalar:" + tu + "vec3", 0);
+  If<ok>::template add<CmpVS<Op, T, U, S3A>>(r, "compound.scalar:" + tu + "vec3a", 0);
+  If<ok>::template add<CmpVS<Op, T, U, S4>>(r, "compound.scalar:" + tu + "vec4", 0);
 }
 template <class T, class U>
 inline void reg_cmp_tu(Reg &r)
